@@ -27,8 +27,15 @@ def sh(cmd, cwd, timeout=1800):
 
 def test_summary(out):
     res = []
-    for m in re.finditer(r"Running (?:unittests )?(\S+).*?\n(?:.*\n)*?test result: (\w+)\. (\d+) passed; (\d+) failed", out):
-        res.append((m.group(1), m.group(2), int(m.group(3)), int(m.group(4))))
+    # one section per test binary: a binary that aborts (stack overflow, SIGSEGV) prints no `test result` line of its own
+    secs = re.split(r"^\s+Running ", out, flags=re.M)[1:]
+    for s in secs:
+        name = re.match(r"(?:unittests )?(\S+)", s).group(1)
+        m = re.search(r"test result: (\w+)\. (\d+) passed; (\d+) failed", s.split("Doc-tests")[0])
+        if m:
+            res.append((name, m.group(1), int(m.group(2)), int(m.group(3))))
+        elif "SIGABRT" in s or "SIGSEGV" in s or "process didn't exit successfully" in s or "has overflowed its stack" in s:
+            res.append((name, "ABORTED", 0, 1))
     return res
 
 
